@@ -20,7 +20,8 @@ RULE = ("domain A: grammars built to be LL(1) as written (alternatives start wit
         "strings, exhaustive per grammar; length 4 for 4 terminals) plus sampled sentences of <=10 tokens and their one-token "
         "mutations; both smart_factorization settings; productions declared top-down / bottom-up / shuffled; is_ambiguous() is "
         "re-read after all texts were parsed. Non-trivial = grammar has a nullable non-terminal followed by "
-        "something and the tested set contains both members and non-members; distinct by (grammar, names).")
+        "something and the tested set contains both members and non-members; distinct by (grammar, names)."
+        " Also: FOLLOW-dependency cycles through 2-3 symbols (pattern st_follow_cycle); the parser's description printed before parsing in a quarter of the cases.")
 ASSUMPTIONS = [
     "domain F (part of A): hand-shaped LL(1) patterns where exact FOLLOW sets matter (nullable symbol followed by a nullable symbol that has another follower elsewhere), with generated terminals, orders and wrappers",
     "membership oracle = fixpoint chart recogniser over the user grammar (vlib/grammar.py)",
